@@ -5,7 +5,7 @@
 # files it under /verif/seeded/<PID>-<name>/ with meta.json.
 set -u
 pid=$1; name=$2; shift 2
-src=/tmp/seed/$pid/$name
+src=/tmp/seed/${SEEDTAG:-$pid}/$name
 dst=/verif/seeded/$pid-$name
 w=/tmp/vseed/$pid-$name
 rm -rf "$w"; mkdir -p "$w" "$dst"
